@@ -332,6 +332,9 @@ void BppODiscreteDistributionFormat::writeDiscreteDistribution(
       out << ",";
     out << "n="  << dist.getNumberOfCategories();
     comma = true;
+    // The bounds of a uniform distribution are not parameters: the reader asks for them.
+    if (dynamic_cast<const UniformDiscreteDistribution*>(&dist))
+      out << ",begin=" << dist.getLowerBound() << ",end=" << dist.getUpperBound();
   }
 
   try
